@@ -379,3 +379,37 @@ Proof.
   apply ball_connected_to_seeds; [exact (proj1 C02_ctxS_nonvacuous)| |vm_compute; auto].
   intros s [<-|[]]. vm_compute. auto.
 Qed.
+
+(** * the property text as ONE statement for ITS graphs of ANY label shape (pair labels of ITSConstruction.construct, absent labels) whose
+    standard_order is the order difference: theorems 42, 41, 31, 28 assembled *)
+Theorem property_statement_S (g : sits) : wf g -> std_consistent_S g ->
+  (forall u v y, adj (get_rc_S K_default false false g) u v = Some y <->
+                 exists x, adj g u v = Some x /\ (e_G (fst x) <> e_H (fst x) \/ is_hh_g ish_S g u v = true) /\ y = out_edge x) /\
+  (forall n b, label (get_rc_S K_default false false g) n = Some b <->
+               exists a, label g n = Some a /\
+                 ((inc_end_S false g n /\ b = selS K_default a) \/ (~ inc_end_S false g n /\ hh_end_S g n /\ b = selS_hh K_default a))) /\
+  geq (get_rc_S K_default false false (get_rc_S K_default false false g)) (get_rc_S K_default false false g) /\
+  (forall f : N -> N, (forall a b, f a = f b -> a = b) ->
+     get_rc_S K_default false false (relabel f g) = relabel f (get_rc_S K_default false false g) /\
+     forall k : Z, extract_k_S_z (relabel f g) k = relabel f (extract_k_S_z g k)) /\
+  (forall k, (1 <= k)%nat ->
+     let Bk := dist_le_g g (node_ids (get_rc_S K_default false false g)) k in
+     (forall n, In n (node_ids (extract_k_S g k)) <-> Bk n) /\
+     (forall n a, label (extract_k_S g k) n = Some a <-> label g n = Some a /\ Bk n) /\
+     (forall u v e, adj (extract_k_S g k) u v = Some e <-> adj g u v = Some e /\ Bk u /\ Bk v)) /\
+  (forall k k', (k <= k')%nat ->
+     extract_k_S g 0 = get_rc_S K_default false false g /\
+     (forall n, In n (node_ids (extract_k_S g k)) -> In n (node_ids (extract_k_S g k'))) /\
+     (forall u v, adj (extract_k_S g k) u v <> None -> adj (extract_k_S g k') u v <> None) /\
+     (forall n, In n (node_ids (extract_k_S g k')) -> In n (node_ids g)) /\
+     (forall u v, adj (extract_k_S g k') u v <> None -> adj g u v <> None)).
+Proof.
+  intros W Hs. split; [apply rcS_edges_std; assumption|]. split.
+  - intros n b. rewrite (rcS_nodes K_default false false g W n b). split; intros (a & La & Cases); exists a; (split; [exact La|]).
+    + destruct Cases as [C|[C|(_ & _ & D & _)]]; [left; exact C|right; exact C|discriminate].
+    + destruct Cases as [C|C]; [left; exact C|right; left; exact C].
+  - split; [apply rcS_idem; [reflexivity|reflexivity|exact W]|]. split.
+    + intros f Hinj. split; [apply (rcS_equivariant f Hinj); exact W|intros k; apply (ctxS_z_equivariant f Hinj); exact W].
+    + split; [intros k Hk; exact (ctxS_spec g W k Hk)|].
+      intros k k' Hk. destruct (ctxS_chain g W k k' Hk) as (C0 & C1 & C2 & _ & C4 & C5). auto.
+Qed.
